@@ -769,6 +769,9 @@ func (w *world) judgePassOver(st *stub, n uint64, p *big.Int) {
 	data := w.cfg.data()
 	cc := w.cfg.craftCtx()
 	for m := uint64(0); m < limit; m++ {
+		if m%256 == 0 {
+			kernel.Progress.Add(1)
+		}
 		var trits []int8
 		if st != nil {
 			trits = st.Trits(m)
